@@ -156,3 +156,7 @@ func ForallAny[T any](f func(T) bool) bool { return Forall(f) }
 
 // F64bits is math.Float64bits (an intrinsic of the verifier).
 func F64bits(f float64) uint64 { return math.Float64bits(f) }
+
+// Visited: key k has been produced by the latest range loop over map m
+// (ghost state of the verifier; meaningless at run time).
+func Visited[K comparable, V any](m map[K]V, k K) bool { return true }
